@@ -47,7 +47,7 @@ GATED = {
     "MC_gated_nilfn5": dict(nc=1, nl=1, wrun=[], wterm=[]),
     "MC_gated_wait": dict(nc=1, nl=0, wrun=[1], wterm=[2]),
     "MC_gated_nilfn": dict(nc=1, nl=1, wrun=[], wterm=[]),
-    "MC_gated_lw": dict(nc=2, nl=1, wrun=[1], wterm=[2]),
+    "MC_gated_lw": dict(nc=1, nl=1, wrun=[1], wterm=[2]),
     "MC_gated_l2": dict(nc=1, nl=2, wrun=[], wterm=[]),
 }
 MGATED = {
@@ -125,83 +125,90 @@ def run(ctx):
             return r
         return th
 
-    # ---- 1. behaviours of the gate-granularity graphs (Service.tla's invariants are checked on them as well).
-    # F4: MC_nilcancel.cfg (thorough tier) is the explicit TLC run in which the specification of StopAsync as it is in the
-    # pinned code violates NoNilCancelCall; its counterexample is replayed. The quick tier takes the same witness from the
-    # behaviours of MC_gated_core (a printed state with nilCalls > 0 is a counterexample of the invariant).
-    gated = ["MC_gated_core", "MC_gated_modes", "MC_gated_wait", "MC_gated_nilfn"] if quick else \
-            ["MC_gated_core3", "MC_gated_wait", "MC_gated_nilfn5", "MC_gated_lw", "MC_gated_l2"]
-    mg = [("MC_mgated_one", None, None), ("MC_mgated_cover" if quick else "MC_mgated_cover1", None, None), ("MC_mgated_sim", "num=%d" % (40 if quick else 400), 40)]
-    if not quick:
-        mg.append(("MC_mgated_sim3", "num=300", 60))
-    thunks = [tlc_ok("ServiceGated", cfg, heap="3g") for cfg in gated]
-    thunks += [tlc_ok("ManagerGated", cfg, heap="3g", simulate=sim, depth=depth, count=not sim, workers=(W if not sim else 2))
-               for cfg, sim, depth in mg]
-    if not quick:
-        def nilcancel(sub):
-            r = sub.tlc("services", "ServiceGated", cfg="MC_nilcancel.cfg", timeout=600, workers=1, count=False, heap="2g")
-            if r.timed_out or r.error:
-                incon("MC_nilcancel: %s" % (r.error or "timeout"))
-            if r.violated != "NoNilCancelCallEmit" or r.emitted == 0:
-                incon("MC_nilcancel: the unguarded StopAsync model is expected to violate NoNilCancelCall; TLC said %r" % r.violated)
-            return r
-        thunks.append(nilcancel)
-    outs = parallel(ctx, thunks, PAR)
-    jobs, emitted = [], {}
-    if not quick:
-        first = open(outs[-1].out_path).readline()      # keep the first counterexample only
-        cex = ctx.path("f4_cex.ndjson")
-        open(cex, "w").write(first)
-        ctx.extra["f4_spec_counterexample"] = [s[0] + ":" + str(s[1]) for s in json.loads(first)["h"][1:]]
-        jobs.append(dict(kind="service", name="MC_nilcancel(counterexample of NoNilCancelCall)", **{"in": cex}, **GATED["MC_nilcancel"]))
-    for cfg, r in zip(gated + [m[0] for m in mg], outs):
-        if r.emitted == 0:
-            incon("%s emitted nothing" % cfg)
-        emitted[cfg] = r.emitted
-        if "f4_spec_counterexample" not in ctx.extra and cfg.startswith("MC_gated_core"):
-            best = None
-            for ln in open(r.out_path):
-                if '"pan":0' in ln:
-                    continue
-                o = json.loads(ln)
-                if best is None or len(o["h"]) < len(best["h"]):
-                    best = o
-            if best is None:
-                incon("%s: the unguarded StopAsync model is expected to reach a call of the nil serviceCancel" % cfg)
-            ctx.extra["f4_spec_counterexample"] = [s[0] + ":" + str(s[1]) for s in best["h"][1:]]
-        if os.environ.get("VERIF_C17_CORRUPT") == "obs" and cfg.startswith("MC_gated_core"):
-            corrupt_one_observation(r.out_path)
-        if cfg in GATED:
-            jobs.append(dict(kind="service", name=cfg, **{"in": r.out_path}, **GATED[cfg]))
-        else:
-            jobs.append(dict(kind="manager", name=cfg, **{"in": r.out_path}, **MGATED[cfg]))
+    panics, subst = 0, None
+    if "replay" not in stages:      # development aid: model checking / recording only, StopAsync variant given
+        g = os.environ.get("VERIF_C17_GUARD", "FALSE")
+        panics = 1 if g == "FALSE" else 0
+        subst = {"@@GUARD@@": g, "@@NONIL@@": "" if panics else "NoNilCancelCall"}
+        ctx.inconclusive_note("development run: stages %s only" % sorted(stages))
+    else:
+        # ---- 1. behaviours of the gate-granularity graphs (Service.tla's invariants are checked on them as well).
+        # F4: MC_nilcancel.cfg (thorough tier) is the explicit TLC run in which the specification of StopAsync as it is in the
+        # pinned code violates NoNilCancelCall; its counterexample is replayed. The quick tier takes the same witness from the
+        # behaviours of MC_gated_core (a printed state with nilCalls > 0 is a counterexample of the invariant).
+        gated = ["MC_gated_core", "MC_gated_modes", "MC_gated_wait", "MC_gated_nilfn"] if quick else \
+                ["MC_gated_core3", "MC_gated_wait", "MC_gated_nilfn5", "MC_gated_lw", "MC_gated_l2"]
+        mg = [("MC_mgated_one", None, None), ("MC_mgated_cover" if quick else "MC_mgated_cover1", None, None), ("MC_mgated_sim", "num=%d" % (40 if quick else 400), 40)]
+        if not quick:
+            mg.append(("MC_mgated_sim3", "num=300", 60))
+        thunks = [tlc_ok("ServiceGated", cfg, heap="3g") for cfg in gated]
+        thunks += [tlc_ok("ManagerGated", cfg, heap="3g", simulate=sim, depth=depth, count=not sim, workers=(W if not sim else 2))
+                   for cfg, sim, depth in mg]
+        if not quick:
+            def nilcancel(sub):
+                r = sub.tlc("services", "ServiceGated", cfg="MC_nilcancel.cfg", timeout=600, workers=1, count=False, heap="2g")
+                if r.timed_out or r.error:
+                    incon("MC_nilcancel: %s" % (r.error or "timeout"))
+                if r.violated != "NoNilCancelCallEmit" or r.emitted == 0:
+                    incon("MC_nilcancel: the unguarded StopAsync model is expected to violate NoNilCancelCall; TLC said %r" % r.violated)
+                return r
+            thunks.append(nilcancel)
+        outs = parallel(ctx, thunks, PAR)
+        jobs, emitted = [], {}
+        if not quick:
+            first = open(outs[-1].out_path).readline()      # keep the first counterexample only
+            cex = ctx.path("f4_cex.ndjson")
+            open(cex, "w").write(first)
+            ctx.extra["f4_spec_counterexample"] = [s[0] + ":" + str(s[1]) for s in json.loads(first)["h"][1:]]
+            jobs.append(dict(kind="service", name="MC_nilcancel(counterexample of NoNilCancelCall)", **{"in": cex}, **GATED["MC_nilcancel"]))
+        for cfg, r in zip(gated + [m[0] for m in mg], outs):
+            if r.emitted == 0:
+                incon("%s emitted nothing" % cfg)
+            emitted[cfg] = r.emitted
+            if "f4_spec_counterexample" not in ctx.extra and cfg.startswith("MC_gated_core"):
+                best = None
+                for ln in open(r.out_path):
+                    if '"pan":0' in ln:
+                        continue
+                    o = json.loads(ln)
+                    if best is None or len(o["h"]) < len(best["h"]):
+                        best = o
+                if best is None:
+                    incon("%s: the unguarded StopAsync model is expected to reach a call of the nil serviceCancel" % cfg)
+                ctx.extra["f4_spec_counterexample"] = [s[0] + ":" + str(s[1]) for s in best["h"][1:]]
+            if os.environ.get("VERIF_C17_CORRUPT") == "obs" and cfg.startswith("MC_gated_core"):
+                corrupt_one_observation(r.out_path)
+            if cfg in GATED:
+                jobs.append(dict(kind="service", name=cfg, **{"in": r.out_path}, **GATED[cfg]))
+            else:
+                jobs.append(dict(kind="manager", name=cfg, **{"in": r.out_path}, **MGATED[cfg]))
 
-    # ---- 2. replay everything on the real code (child processes: a crash of the code is a mismatch, not a dead run)
-    manifest = ctx.path("jobs.json")
-    json.dump(jobs, open(manifest, "w"))
-    res = ctx.run_harness("c17", "^TestReplay$", env={"VERIF_JOBS": manifest}, timeout=3000)
-    by_sig = (res.get("extra") or {}).get("mismatches_by_sig") or {}
-    panics = sum(n for s, n in by_sig.items() if s == F4_SIG)
-    guarded = (res.get("extra") or {}).get("guarded_nil_calls", 0)
-    ctx.absorb(res, "replay")
-    if panics and guarded:
-        ctx.log("StopAsync panics in some schedules and not in others")
-    if not panics and not guarded:
-        incon("the nil-serviceCancel schedule of the specification was not exercised by the replay")
-    guard = "FALSE" if panics else "TRUE"
-    ctx.extra["stopasync_variant"] = ("as in the pinned code: calls a nil serviceCancel after losing the New->Terminated race "
-                                      "(NoNilCancelCall violated on the specification and reproduced on the code)") if panics else \
-        "guarded: the loser of the New->Terminated race does nothing (NoNilCancelCall is an invariant of every configuration below)"
-    ctx.extra["behaviours_emitted"] = emitted
-    subst = {"@@GUARD@@": guard, "@@NONIL@@": "" if panics else "NoNilCancelCall"}
+        # ---- 2. replay everything on the real code (child processes: a crash of the code is a mismatch, not a dead run)
+        manifest = ctx.path("jobs.json")
+        json.dump(jobs, open(manifest, "w"))
+        res = ctx.run_harness("c17", "^TestReplay$", env={"VERIF_JOBS": manifest}, timeout=3000)
+        by_sig = (res.get("extra") or {}).get("mismatches_by_sig") or {}
+        panics = sum(n for s, n in by_sig.items() if s == F4_SIG)
+        guarded = (res.get("extra") or {}).get("guarded_nil_calls", 0)
+        ctx.absorb(res, "replay")
+        if panics and guarded:
+            ctx.log("StopAsync panics in some schedules and not in others")
+        if not panics and not guarded:
+            incon("the nil-serviceCancel schedule of the specification was not exercised by the replay")
+        guard = "FALSE" if panics else "TRUE"
+        ctx.extra["stopasync_variant"] = ("as in the pinned code: calls a nil serviceCancel after losing the New->Terminated race "
+                                          "(NoNilCancelCall violated on the specification and reproduced on the code)") if panics else \
+            "guarded: the loser of the New->Terminated race does nothing (NoNilCancelCall is an invariant of every configuration below)"
+        ctx.extra["behaviours_emitted"] = emitted
+        subst = {"@@GUARD@@": guard, "@@NONIL@@": "" if panics else "NoNilCancelCall"}
 
-    if "model" not in stages:
+    if "model" not in stages and "record" not in stages:
         ctx.inconclusive_note("development run: stages %s only" % sorted(stages))
         return "model_checking"
 
     # ---- 3. the property itself: exhaustive model checking at the granularity of the critical sections; side by side,
     #         code -> spec: traces of free-running goroutines are recorded
-    fine = ["MC_svc_quick", "MC_svc_wait"] if quick else ["MC_svc_quick", "MC_svc_wait", "MC_svc_lw", "MC_svc_full", "MC_svc_live"]
+    fine = ["MC_svc_quick", "MC_svc_wait"] if quick else ["MC_svc_quick", "MC_svc_wait", "MC_svc_lw", "MC_svc_full", "MC_svc_live", "MC_svc_live_w"]
     covcfg = () if quick else ("MC_svc_quick", "MC_svc_wait")
     thunks = [tlc_ok("Service", cfg, subst=subst, coverage=cfg in covcfg) for cfg in fine]
     mcfgs = ["MC_mgr_quick"] if quick else ["MC_mgr_quick", "MC_mgr2", "MC_mgr_live"]
@@ -234,6 +241,9 @@ def run(ctx):
         thunks += [fw_noreader, qfull]
         names += ["MC_fw_noreader", "MC_svc_qfull"]
 
+    if "model" not in stages:
+        thunks, names, covcfg = [], [], ()
+        ctx.inconclusive_note("development run: stages %s only" % sorted(stages))
     ntr = 120 if quick else 1000
     trace = ctx.path("trace.ndjson")
 
@@ -244,13 +254,13 @@ def run(ctx):
         names.append("record")
     outs = dict(zip(names, parallel(ctx, thunks, PAR)))
     never = None          # vacuity guard: every action of Service.tla is taken in at least one of the two configurations
-    for cfg in covcfg:
-        z = set(outs[cfg].coverage_zero)
+    for cfg in covcfg:      # keyed by action name AND location: the \\E-quantified disjuncts of Next are all reported as "Next"
+        z = set(re.findall(r"^<(\w+ line [^>]*)>: 0:0$", outs[cfg].log, re.M))
         never = z if never is None else never & z
     if never:
         incon("Service.tla: actions never taken: %s" % sorted(never)[:8])
-    if not quick and outs["MC_mgr2"].coverage_zero:
-        incon("Manager.tla: actions never taken: %s" % outs["MC_mgr2"].coverage_zero[:8])
+    if not quick and "MC_mgr2" in outs and outs["MC_mgr2"].coverage_zero:
+        incon("Manager.tla: actions never taken: %s" % re.findall(r"^<(\w+ line [^>]*)>: 0:0$", outs["MC_mgr2"].log, re.M)[:8])
 
     if "record" not in stages:
         ctx.inconclusive_note("development run: stages %s only" % sorted(stages))
